@@ -15,9 +15,12 @@ vars == <<t, delta, mode>>
 
 FrTypes == TypedTypes \cup {10, 99}
 
-Init == /\ t \in FrTypes
-        /\ \/ delta \in Deltas /\ mode \in {"len-only", "resized"}
-           \/ delta = 0 /\ mode \in {"count+1", "count-1", "exact", "empty", "empty-cut"}
+Init == \/ /\ t \in FrTypes
+           /\ \/ delta \in Deltas /\ mode \in {"len-only", "resized"}
+              \/ delta = 0 /\ mode \in {"count+1", "count-1", "exact", "empty", "empty-cut"}
+        \* a large opaque record in front, so that the owner of the last record is a compression pointer to an
+        \* offset beyond 1024 / 8192 / 16000 (every bit of the 14-bit offset field matters)
+        \/ /\ t = 10 /\ mode = "far-pointer" /\ delta \in {1100, 1101, 1102, 9000, 9001, 9002, 16200, 16201}
 Next == UNCHANGED vars
 Spec == Init /\ [][Next]_vars
 
@@ -45,6 +48,9 @@ First ==
     [] mode = "empty" -> RRHead(0)
     \* RDLENGTH 0 although the typed content follows: the content is then (mis)read as the next entry
     [] mode = "empty-cut" -> RRHead(0) \o NatRd
+    \* (the opaque content is made of well-formed one-label names, so that a pointer that lands inside it through
+    \* a wrong offset computation decodes -- to a wrong name -- instead of merely failing)
+    [] mode = "far-pointer" -> RRHead(delta) \o [i \in 1 .. delta |-> <<1, 120, 0>>[(i % 3) + 1]]
     [] OTHER -> RRHead(Len(NatRd)) \o NatRd
 
 \* the record under test is the answer, the sentinels are one authority and one additional record; the count that
@@ -57,7 +63,13 @@ Usable == Len(NatRd) + delta >= 0
 \* five QTYPE specials (IXFR AXFR MAILB MAILA ANY), classes IN / CH / ANY
 QSpecials == <<1, 251, 252, 253, 254, 255, 65, 16>>
 Quest == [name |-> <<<<113>>, La>>, qtype |-> QSpecials[(t % 8) + 1], qclass |-> <<1, 3, 255>>[(t % 3) + 1], unicast |-> (t % 2 = 1)]
-Msg == HdrEncode(9, FlagsOf, 0, 0, 1, 1, 1, ArCount) \o EncQuestion(Quest) \o First \o Sentinel(1) \o Sentinel(2)
+\* Sentinel(2) with its owner written as a pointer to Sentinel(1)'s owner (s1: 01 's' 01 '1' 00)
+FarOffset == 12 + Len(EncQuestion(Quest)) + Len(First)
+SentinelPtr == <<192 + (FarOffset \div 256), FarOffset % 256>> \o SubSeq(Sentinel(1), 6, Len(Sentinel(1)))
+Msg == IF mode = "far-pointer"
+       THEN HdrEncode(9, FlagsOf, 0, 0, 1, 1, 1, 1) \o EncQuestion(Quest) \o First \o Sentinel(1) \o SentinelPtr
+       ELSE HdrEncode(9, FlagsOf, 0, 0, 1, 1, 1, ArCount) \o EncQuestion(Quest) \o First \o Sentinel(1) \o Sentinel(2)
+FarOK == mode = "far-pointer" => LET d == RefDecode(Msg) IN d.ok /\ d.end = Len(Msg) /\ d.pkt.ar[1].name = <<<<115>>, <<49>>>>
 
 \* sanity of the generator itself: the exact variant decodes to three records
 Entries(d) == Len(d.pkt.an) + Len(d.pkt.ns) + Len(d.pkt.ar) + (IF d.pkt.opt = <<>> THEN 0 ELSE 1)
